@@ -223,10 +223,10 @@ def TextOK : Frame → Prop
   | .disconnect d => ValidUtf8 d.reason
   | _ => True
 
-/-- **the bridge is faithful, server → client, through the JSON layer**: for every outbound frame except PONG, with
+/-- **the bridge is faithful, server → client, through the JSON layer**: for every outbound frame, with
     valid-UTF-8 strings, in-range integers and (for the responses) a non-empty valid request id, what the client decodes
     determines `normOut f` and the request id. -/
-theorem c24_bridge_faithful_out (rid : Str) (f : Frame) (hf : IsOutbound f) (hp : ∀ fl, f ≠ .pong fl) (hr : InRange f)
+theorem c24_bridge_faithful_out (rid : Str) (f : Frame) (hf : IsOutbound f) (hr : InRange f)
     (ht : TextOK f) (hid : rid ≠ [] ∧ ValidUtf8 rid) :
     ∃ m m', fromFrame rid f = .ok m ∧ reDecode m = .ok m' ∧ peerToFrame m' = some (normOut f, ridOut rid f) := by
   obtain ⟨m, hm, hpeer⟩ := c24_bridge_roundtrip_out rid f hf hr
@@ -259,7 +259,9 @@ theorem c24_bridge_faithful_out (rid : Str) (f : Frame) (hf : IsOutbound f) (hp 
     injection hm with hm; subst hm
     unfold TextOK ValidUtf8 at ht
     simp only [reDecode, ht]
-  | pong fl => exact absurd rfl (hp fl)
+  | pong fl =>
+    injection hm with hm; subst hm
+    simp only [reDecode, hid.1, if_false, hid.2]
   | connect _ => exact absurd hf (by simp [IsOutbound])
   | send _ => exact absurd hf (by simp [IsOutbound])
   | recvack _ => exact absurd hf (by simp [IsOutbound])
@@ -267,15 +269,29 @@ theorem c24_bridge_faithful_out (rid : Str) (f : Frame) (hf : IsOutbound f) (hp 
 
 example : ∃ m m', fromFrame [114] (.disconnect { fl := {}, reasonCode := 3, reason := [98] }) = .ok m ∧ reDecode m = .ok m' ∧
     peerToFrame m' = some (.disconnect { fl := {}, reasonCode := 3, reason := [98] }, []) :=
-  c24_bridge_faithful_out [114] _ trivial (fun _ h => by cases h) (by simp [InRange]) (by unfold TextOK ValidUtf8; decide) ⟨by decide, by unfold ValidUtf8; decide⟩
+  c24_bridge_faithful_out [114] _ trivial (by simp [InRange]) (by unfold TextOK ValidUtf8; decide) ⟨by decide, by unfold ValidUtf8; decide⟩
 
-/-- **PONG is the exception (finding)**: the response `FromFrame` builds for a PONG has neither `result` nor `error`, so the
-    codec's own `Decode` (determineMessageType) rejects it — for every request id. -/
-theorem c24_pong_undecodable (rid : Str) (fl : Flags) :
-    ∃ m, fromFrame rid (.pong fl) = .ok m ∧ reDecode m = .error .undetermined ∧
-      determine { jv := .str v20, idRaw := some (34 :: rid ++ [34]), method := [], result := false, error := false }
-        = (.unknown, some .undetermined) := by
-  refine ⟨_, rfl, rfl, ?_⟩
+/-- **PONG round trip** (a finding on the original tree, repaired in /repo 0daf3a1ff): the response `FromFrame` builds for
+    a PONG now carries `result: {}`, so `determineMessageType` classifies it as a response and the client gets the
+    request id back.  (Before the fix the probe had `result := false` and the outcome was `(unknown, undetermined)`.) -/
+theorem c24_pong_roundtrip (rid : Str) (fl : Flags) (hid : rid ≠ [] ∧ ValidUtf8 rid) :
+    ∃ m m', fromFrame rid (.pong fl) = .ok m ∧ reDecode m = .ok m' ∧ peerToFrame m' = some (.pong Flags.none, rid) ∧
+      determine { jv := .str v20, idRaw := some (34 :: rid ++ [34]), method := [], result := true, error := false }
+        = (.response, none) := by
+  unfold ValidUtf8 at hid
+  refine ⟨_, .pongResp rid, rfl, ?_, rfl, ?_⟩
+  · simp only [reDecode, hid.1, if_false, hid.2]
+  · unfold determine
+    simp [v20]
+
+example : ∃ m m', fromFrame [114] (.pong {}) = .ok m ∧ reDecode m = .ok m' ∧ peerToFrame m' = some (.pong Flags.none, [114]) := by
+  obtain ⟨m, m', h1, h2, h3, _⟩ := c24_pong_roundtrip [114] {} ⟨by decide, by unfold ValidUtf8; decide⟩
+  exact ⟨m, m', h1, h2, h3⟩
+
+/-- what the unrepaired shape looked like to `determineMessageType`: id, no method, neither result nor error -/
+theorem c24_response_needs_result_or_error (rid : Str) :
+    determine { jv := .str v20, idRaw := some (34 :: rid ++ [34]), method := [], result := false, error := false }
+      = (.unknown, some .undetermined) := by
   unfold determine
   simp [v20]
 
